@@ -1670,6 +1670,10 @@ class FnTr:
             return pre + if_lines(c.text, a, b)
         w = self.wnames(then + els, env)
         if not w:
+            # the branches assign nothing that is live: they contribute nothing to the term, but they are still
+            # translated (and the result discarded) so that a construct outside the subset is reported, not skipped
+            self.tr_stmts(then, env_t, lambda e: ['()'], rk)
+            self.tr_stmts(els, env, lambda e: ['()'], rk)
             return pre + self.tr_stmts(rest, env, k, rk)
         end = lambda e: [tuple_text([v for v, _ in w])]
         a = self.tr_stmts(then, env_t, end, rk)
@@ -1805,6 +1809,16 @@ class FnTr:
                 raise Unsupported('C string parameter %s is written' % n)
             env = env.declare(v)
             params.append('(%s : %s)' % (v.lean, 'Option (List Int)' if v.nullable else lean_type(v.obj)))
+        # a call whose callee is neither a named function nor a function-pointer MEMBER (`rds->callback_x`) has an effect the
+        # write analysis cannot see (e.g. `callback(rds, ud)` through a pointer PARAMETER): never translate around it
+        def indirect(n):
+            if isinstance(n, dict):
+                if n.get('kind') == 'CallExpr' and callee_of(n)[0] == '?':
+                    return True
+                return any(indirect(c) for c in inner(n))
+            return False
+        if indirect(info.body):
+            raise Unsupported('indirect call through a function pointer that is not a member of the parser object')
         top = lambda t: [t]
         body = self.tr_stmts(inner(info.body), env, lambda e: top(self.final_tuple(None)), top)
         return params, body
